@@ -65,6 +65,9 @@ def check_regions(src, node):
                     except SyntaxError:
                         problems.append("reparse[%s]: %r does not parse" % (type(rn).__name__, seg))
             parent_region = (a, b)
+        elif isinstance(rn, (ast.expr, ast.stmt)) and not in_fstring:
+            # every statement and expression has to be annotated: refactorings read .region of any of them
+            problems.append("unannotated[%s]: line %d has no region" % (type(rn).__name__, rn.lineno))
         for (f1, v1), (f2, v2) in zip(ast.iter_fields(sn), ast.iter_fields(rn)):
             inner = in_fstring or isinstance(rn, ast.JoinedStr)
             if isinstance(v1, ast.AST) and isinstance(v2, ast.AST):
